@@ -120,6 +120,14 @@ func Validate(d Doc, wantVersion string, cfg map[string]any) []Finding {
 					add("path-parameter-in-template", where, "path parameter %q does not occur in the path template", n)
 				}
 			}
+			// a closed document: every security requirement names a scheme the document declares
+			for _, alt := range L(op["security"]) {
+				for name := range M(alt) {
+					if _, ok := d.SecuritySchemes()[name]; !ok {
+						add("security-requirement-names-declared-scheme", where+"/security", "requirement names scheme %q, components.securitySchemes declares %v", name, sortedKeys(d.SecuritySchemes()))
+					}
+				}
+			}
 			resps := M(op["responses"])
 			if len(resps) == 0 {
 				add("responses-present", where, "operation has no responses")
@@ -287,4 +295,13 @@ func jsonTypeOf(v any) string {
 		return "array"
 	}
 	return "object"
+}
+
+func sortedKeys(m map[string]any) []string {
+	var out []string
+	for k := range m {
+		out = append(out, k)
+	}
+	sort.Strings(out)
+	return out
 }
